@@ -747,6 +747,10 @@ def check(case):
                 if part == "frames":
                     # the same contribution again into the same Export: a second collection with its own files
                     nread += _check_export(case, kind, o, sol, {}, folder1, e, contr, dict(kwargs), fails, stats, tag=":second export_contr")
+                    # an explicit file name containing dots, used twice on the same Export object (each call gets its own collection and files)
+                    kw_name = dict(kwargs, file_name="run_dt1.0e-02")
+                    nread += _check_export(case, kind, o, sol, {}, folder1, e, contr, dict(kw_name), fails, stats, tag=":explicit dotted file_name")
+                    nread += _check_export(case, kind, o, sol, {}, folder1, e, contr, dict(kw_name), fails, stats, tag=":explicit dotted file_name again")
                     keep = sorted(os.listdir(folder1))
                     try:
                         e2 = Export(tmp, "out", case["overwrite"], case["fps"], sol, write_ascii=case["ascii"])
